@@ -51,7 +51,10 @@ func HarnessC17Seq() {
 	// times, and never blocks this or another data source
 	p3 := verifTempPath("c17_notanindex.updog")
 	verifMakeFile(p3, 1) // an empty file: bbolt initialises it as a database without the index bucket
-	dsns := []string{"file:" + p1 + "?lrucache=true&lrucachesize=4611686018427387904", "file:" + p2 + "?lrucache=true&lrucachesize=4611686018427387904", "file:" + p1 + "?preload=true", "file:" + p3}
+	dsns := []string{"file:" + p1 + "?lrucache=true&lrucachesize=4611686018427387904", "file:" + p2 + "?lrucache=true&lrucachesize=4611686018427387904", "file:" + p1 + "?preload=true", "file:" + p3,
+		// the first data source spelled with options at their default values and in another order:
+		// the same file with the same effective options, usable next to the first spelling
+		"file:" + p1 + "?preload=false&lrucachesize=4611686018427387904&lrucache=true"}
 	d := newUpdogDriver()
 	var open []*fileConn
 	var openDSN []int
@@ -69,7 +72,7 @@ func HarnessC17Seq() {
 			which := verifChoice("dsn", len(dsns))
 			conflict := false
 			for _, o := range openDSN {
-				if (o == 0 && which == 2) || (o == 2 && which == 0) {
+				if ((o == 0 || o == 4) && which == 2) || (o == 2 && (which == 0 || which == 4)) {
 					conflict = true
 				}
 			}
